@@ -208,6 +208,7 @@ def worldOfTables (j : Json) : R World := do
     classify := fun ts => match clT.find? (·.1 == ts) with
       | some e => e.2
       | none => { action := "<oracle-miss>", description := some "<oracle-miss>" }
+    runsScripts := fun b => Generated.runsScriptsCommands.contains b
     description := fun ts => match dsT.find? (·.1 == ts) with
       | some e => e.2
       | none => "<oracle-miss>"
